@@ -103,13 +103,27 @@ def setup(d1, d2, f_root, f1a, f1b, f2, init1, init2, rev, usec, pat, paths, lin
     return tree, roots, o, (d1, d2, f_root, f1a, f1b, f2, init1, init2, rev, usec, tuple(pat), tuple(pathsk))
 
 
+_IGNORE_FOLDERS = frozenset(F.IGNORE_FOLDERS)
+
+
 def files(*a):
     global LAST
+    a = list(a)
+    prior = cb(a.pop()) if len(a) > 13 else False
     tree, roots, o, desc = setup(*a)
     fos = FO.FakeOS(tree)
     saved = F.os
     F.os = fos
+    F.IGNORE_FOLDERS = set(_IGNORE_FOLDERS)          # module-level state of a fresh interpreter
     try:
+        if prior:
+            # an earlier discovery in the same process (run_internal called twice) that was asked to ignore the directory:
+            # this run was not, and must find what is in it
+            with untraced():
+                o0 = RW.options(['--ignore_dir', desc[0]])
+                o0.test_path, o0.prefix = o.test_path, o.prefix
+            list(F.find_test_files(o0))
+            del fos.calls[:]
         got = [f for f, _pkg in F.find_test_files(o)]
     finally:
         F.os = saved
@@ -214,14 +228,14 @@ def suites_reach(*a):
 
 
 _P = [('d1', 'int'), ('d2', 'int'), ('f_root', 'int'), ('f1a', 'int'), ('f1b', 'int'), ('f2', 'int'), ('init1', 'bool'), ('init2', 'bool'), ('rev', 'bool'),
-      ('usec', 'bool'), ('pat', 'int'), ('paths', 'int'), ('link', 'int')]
+      ('usec', 'bool'), ('pat', 'int'), ('paths', 'int'), ('link', 'int'), ('prior', 'bool')]
 _C = ', '.join(n for n, _ in _P)
 _ND, _NF = len(DNAMES), len(FNAMES)
 _B = ('0 <= link <= 2 and 0 <= d1 < %d and 0 <= d2 <= 1 and 0 <= f_root < %d and 0 <= f1a < %d and 0 <= f1b < %d and 0 <= f2 < %d and 0 <= pat < %d and 0 <= paths < %d'
       % (_ND, _NF, _NF, _NF, _NF, len(PATTERNS), len(PATHSETS)))
-_Q = (_B + ' and (link == 0 or (paths == 0 and pat == 0 and not usec and f1a <= 1)) and f_root == 2 and d2 == 0 and f2 == 1 and f1b <= 3 and init2 and (paths == 0 or f1a <= 3) and (paths <= 3) '
+_Q = (_B + ' and (not prior or (pat == 0 and paths == 0 and link == 0 and not usec and f1a <= 1)) and (link == 0 or (paths == 0 and pat == 0 and not usec and f1a <= 1)) and f_root == 2 and d2 == 0 and f2 == 1 and f1b <= 3 and init2 and (paths == 0 or f1a <= 3) and (paths <= 3) '
       'and (pat == 0 or (d1 <= 2 and f1a <= 3 and paths == 0) or (pat >= 3 and paths == 0 and f1a <= 1 and (d1 == 1 or d1 == 4 or d1 == 9))) and (not usec or (d1 <= 1 and f1a >= 4 and paths == 0 and pat == 0))')
-_T = _B + ' and (f_root == 2 or f_root == 5) and f2 <= 1 and f1b <= 5 and init2 and d2 == 0 and ((pat != 0) + (paths != 0) + usec + (link != 0) <= 1)'
+_T = _B + ' and (not prior or (pat == 0 and paths == 0 and link == 0)) and (f_root == 2 or f_root == 5) and f2 <= 1 and f1b <= 5 and init2 and d2 == 0 and ((pat != 0) + (paths != 0) + usec + (link != 0) <= 1)'
 _PS = [('d1', 'int'), ('f1a', 'int'), ('f1b', 'int'), ('init1', 'bool'), ('rev', 'bool'), ('mp', 'int'), ('pkg', 'bool'), ('failkind', 'int'), ('failwhich', 'int')]
 _CS = ', '.join(n for n, _ in _PS)
 _BS = '0 <= d1 < %d and 0 <= f1a < %d and 0 <= f1b < %d and 0 <= mp < %d and 0 <= failkind < 4 and 0 <= failwhich <= 2' % (_ND, _NF, _NF, len(MODPAT))
@@ -229,7 +243,7 @@ _QS = _BS + ' and d1 <= 2 and f1a <= 3 and f1b <= 1 and not rev and (failkind ==
 
 
 def _v(**kw):
-    v = dict(d1=0, d2=0, f_root=2, f1a=0, f1b=1, f2=1, init1=True, init2=True, rev=False, usec=False, pat=0, paths=0, link=0)
+    v = dict(d1=0, d2=0, f_root=2, f1a=0, f1b=1, f2=1, init1=True, init2=True, rev=False, usec=False, pat=0, paths=0, link=0, prior=False)
     v.update(kw)
     return v
 
@@ -259,7 +273,7 @@ SPEC = {
          'reach': 'files_reach', 'reach_bounds': {'quick': _B + ' and d1 == 0 and paths == 0 and pat == 0 and not usec and init1 and init2',
                                                   'thorough': _B + ' and d1 == 0 and paths == 0 and pat == 0 and not usec and init1 and init2'},
          'timeout': {'quick': 300, 'thorough': 1700},
-         'fidelity': [_v(), _v(d1=2, pat=2, f1a=3, f1b=2, rev=True, paths=4), _v(usec=True, f1a=5, f1b=9, init1=False, f2=11), _v(d1=3, paths=2), _v(pat=1, f1b=8, paths=3), _v(d1=6, link=1), _v(d1=1, link=2), _v(d1=9, pat=3), _v(d1=1, pat=4), _v(d1=10), _v(d1=11, rev=True)]},
+         'fidelity': [_v(), _v(d1=2, pat=2, f1a=3, f1b=2, rev=True, paths=4), _v(usec=True, f1a=5, f1b=9, init1=False, f2=11), _v(d1=3, paths=2), _v(pat=1, f1b=8, paths=3), _v(d1=6, link=1), _v(d1=1, link=2), _v(d1=9, pat=3), _v(d1=1, pat=4), _v(d1=10), _v(d1=11, rev=True), _v(d1=1, prior=True), _v(d1=4, prior=True, rev=True)]},
         {'name': 'suites', 'fn': 'suites', 'params': _PS, 'call': _CS,
          'bounds': {'quick': _QS, 'thorough': _BS + ' and d1 <= 4 and f1a <= 5 and f1b <= 3'},
          'slices': {'quick': ['mp == %d and %s' % (m, p) for m in range(len(MODPAT)) for p in ('pkg', 'not pkg')],
